@@ -17,7 +17,9 @@ use tokio_util::codec::FramedRead;
 mod decode;
 
 #[cfg(feature = "ezk-verif")]
-pub use decode::{DecodedMessage, StreamingDecoder};
+pub mod verif {
+    pub use super::decode::{DecodedMessage, Error as DecodeError, StreamingDecoder};
+}
 
 /// Helper trait to implement the transport specific behavior of binding to an address
 #[async_trait::async_trait]
